@@ -120,6 +120,17 @@ theorem chunked_step_tie (maxBlk xcap : Nat) (seekOf : Nat → Int) (f p : Nat) 
 builder cannot refuse content within the 1 GB header limit (`chunked_total`). -/
 theorem default_block_tie : ZbsdiffSrc.default_max_diff_block ≤ maxOp := by decide
 
+/-- `build_optimized_patch` as extracted: the control entries of `compute_diff` go to
+`ControlBlock::with_entries` as they are, the diff / extra streams to `build_patch_internal` as they
+are, and `max_diff_block_size` is not read — so the model's suffix builder is the same function for
+every configured block size. -/
+theorem optimized_builder_tie :
+    ZbsdiffSrc.optimized_entries_arg = "result.control" ∧
+    ZbsdiffSrc.optimized_internal_args = ["control_block", "result.diff_data", "result.extra_data"] ∧
+    ZbsdiffSrc.optimized_block_size_reads = 0 ∧
+    ∀ (maxBlk : Nat) (sa : Array Nat) (old new : Bytes), suffixBlk maxBlk sa old new = suffix sa old new :=
+  ⟨by decide, by decide, by decide, fun _ _ _ _ => rfl⟩
+
 /-- `with_buffer_size` clamp and `ZbsdiffPatcher::new` default. -/
 theorem buffer_tie : (∀ b, clampBuf b = max b ZbsdiffSrc.min_buffer) ∧ defaultBuf = ZbsdiffSrc.default_buffer :=
   ⟨fun _ => rfl, rfl⟩
